@@ -1,9 +1,101 @@
 import UvModel.DriverUtil
-/-! line-protocol driver modes for C13 (stub: no modes yet) -/
+import UvModel.Signal
+/-! line-protocol driver for C13 (signals); other side: harness/c13_sim.c -/
 namespace Drivers.C13
-open UvModel.DriverUtil
+open UvModel.DriverUtil UvModel.Signal
+
+structure DS where
+  s : S := init (fun _ => 0)
+  nl : Nat := 0
+  nh : Nat := 0
+  script : List (Nat × List Op) := []
+
+def sigs : List Nat := [1, 10, 12, 28]
+
+def parseOp (w : String) : Option Op :=
+  match w.splitOn ":" with
+  | ["start", h, sig] => some (.start (nat! h) (nat! sig))
+  | ["oneshot", h, sig] => some (.oneshot (nat! h) (nat! sig))
+  | ["stop", h] => some (.stop (nat! h))
+  | ["stop", h, _] => some (.stop (nat! h))
+  | ["close", h] => some (.close (nat! h))
+  | ["close", h, _] => some (.close (nat! h))
+  | _ => none
+
+def obs (d : DS) : List String :=
+  let sa := String.join (sigs.map fun g =>
+    match d.s.disp g with
+    | .dflt => s!" {g}=dfl"
+    | .uv true => s!" {g}=uv/reset"
+    | .uv false => s!" {g}=uv")
+  let hl := String.join ((List.range d.nh).map fun i =>
+    let h := d.s.hs i
+    if h.closed then s!" {i}:x"
+    else s!" {i}:{if h.signum ≠ 0 then 1 else 0}{if h.closing then "c" else ""}:{h.signum}:{h.caught}:{h.dispatched}")
+  ["obs sigaction" ++ sa, "obs handles" ++ hl]
+
+def hid? (d : DS) (w : String) : Option Nat :=
+  if w.startsWith "h" then
+    match (w.drop 1).toNat? with
+    | some i => if i < d.nh then some i else none
+    | none => none
+  else none
+
+def showCb : Cb → String
+  | .signal h sig _ _ _ => s!"cb signal h{h} {sig}"
+  | .close h => s!"cb close h{h}"
+
+def doOp (d : DS) (o : Op) : DS × List String :=
+  let r := applyOp d.s o
+  let d := { d with s := r.1 }
+  (d, [match r.2 with | some rc => s!"ret {rc}" | none => "ret skip"] ++ obs d)
+
+def sigStep (d : DS) : List String → DS × List String
+  | "init" :: nl :: ls =>
+    let nl' := nat! nl
+    if d.nl ≠ 0 || nl' < 1 || nl' > 8 || ls.length > 32 || ls.any (fun l => l.toNat?.isNone || nat! l ≥ nl') then (d, ["bad-op"]) else
+    let lo := ls.map nat!
+    let d := { d with s := init (fun i => lo.getD i 0), nl := nl', nh := ls.length }
+    (d, obs d)
+  | "script" :: k :: ops => ({ d with script := (nat! k, ops.filterMap parseOp) :: d.script }, [])
+  | ["raise", g] =>
+    if !sigs.contains (nat! g) then (d, ["bad-op"]) else
+    match d.s.disp (nat! g) with
+    | .dflt => (d, ["raise skipped-default"] ++ obs d)
+    | _ => let d := { d with s := deliver d.s (nat! g) }; (d, ["raised"] ++ obs d)
+  | ["run", l] =>
+    if l.toNat?.isNone || nat! l ≥ d.nl then (d, ["bad-op"]) else
+    let sc : Script := fun k => ((d.script.find? (·.1 = k)).map (·.2)).getD []
+    let s := runLoop sc { d.s with trace := [] } (nat! l)
+    let d := { d with s := s }
+    (d, s.trace.reverse.map showCb ++ [s!"ran {nat! l}"] ++ obs d)
+  | ["runraise", l, g] =>
+    if l.toNat?.isNone || nat! l ≥ d.nl || !sigs.contains (nat! g) then (d, ["bad-op"]) else
+    let sc : Script := fun k => ((d.script.find? (·.1 = k)).map (·.2)).getD []
+    -- the check handle keeps the loop alive: poll phase, check phase (raise), closing phase
+    let s1 := dispatch sc { d.s with trace := [] } (nat! l)
+    let (s2, r) := match s1.disp (nat! g) with
+      | .dflt => (s1, "raise skipped-default")
+      | _ => (deliver s1 (nat! g), "raised")
+    let s3 := runClosing { s2 with trace := [] } (nat! l)
+    let d := { d with s := s3 }
+    (d, s1.trace.reverse.map showCb ++ [r] ++ s3.trace.reverse.map showCb ++ [s!"ran {nat! l}"] ++ obs d)
+  | ["start", h, g] => match hid? d h with
+    | some i => doOp d (.start i (nat! g))
+    | none => (d, ["bad-op"])
+  | ["oneshot", h, g] => match hid? d h with
+    | some i => doOp d (.oneshot i (nat! g))
+    | none => (d, ["bad-op"])
+  | ["stop", h] => match hid? d h with
+    | some i => doOp d (.stop i)
+    | none => (d, ["bad-op"])
+  | ["close", h] => match hid? d h with
+    | some i => doOp d (.close i)
+    | none => (d, ["bad-op"])
+  | [] => (d, [])
+  | _ => (d, ["bad-op"])
 
 /-- (mode name, action).  `uvdriver <mode>` runs the action (normally `runLines init step`). -/
-def modes : List (String × IO Unit) := []
+def modes : List (String × IO Unit) := [("signal", runLines ({} : DS) sigStep)]
 
 end Drivers.C13
